@@ -33,6 +33,23 @@ def sampleCalls : Tmpl :=
               (.seq (.expr (.call 4 []) []) (.text ['>'])))))))
         (.text ['e'])))))))
 
+/-- defs written inside a `<%call>`:
+    `<%def name="d1()">[${caller.d5('a')}|${caller.body()}]</%def>`
+    `<%def name="d2()">{<%call expr="d1()"><%def name="d5(v5)" filter="flt2">n${v5}</%def>`
+    `<%def name="d6()">i:${caller.body()}</%def>B<%call expr="d6()">OWN</%call></%call>}</%def>`
+    `<%call expr="d2()">TOP</%call>` – `d5` is reached through `caller.d5(…)`, `d6` is called with content from the
+    call body and uses its *own* caller (`d2` does not mention `caller`) -/
+def sampleNested : Tmpl :=
+  .seq (.def_ 1 [] noFlags (.seq (.text ['[']) (.seq (.expr (.callerCall 5 [.lit ['a']]) []) (.seq (.text ['|'])
+          (.seq (.expr (.callerCall 0 []) []) (.text [']']))))))
+  (.seq (.def_ 2 [] noFlags (.seq (.text ['{'])
+          (.seq (.call (.call 1 []) []
+                  (.seq (.def_ 5 [5] flFilt2 (.seq (.text ['n']) (.expr (.var 5) [])))
+                  (.seq (.def_ 6 [] noFlags (.seq (.text ['i', ':']) (.expr (.callerCall 0 []) [])))
+                  (.seq (.text ['B']) (.call (.call 6 []) [] (.text ['O', 'W', 'N']))))))
+            (.text ['}']))))
+        (.call (.call 2 []) [] (.text ['T', 'O', 'P'])))
+
 /-- quirk: `caller.body()` inside the argument list of a `<%call expr>`:
     `<%def name="d1(v1)">[${v1}${caller.body()}]</%def>` `<%def name="d2()">(${caller.body()})</%def>`
     `<%def name="d3()">{<%call expr="d1(caller.body())">F</%call>}</%def>`
